@@ -34,7 +34,12 @@ FRESH_FUNCS = {
 ALIAS_FUNCS = {"check_array", "getattr"}          # may hand back (a view of) an argument
 NP_FRESH = {"abs", "arange", "argmax", "argsort", "array", "cos", "sin", "count_nonzero", "dot", "isin", "issubdtype", "logical_not", "matmul", "mean", "ndim",
             "nonzero", "outer", "ravel_multi_index", "shape", "sign", "sqrt", "stack", "sum", "unravel_index", "where", "zeros", "zeros_like", "max", "min",
-            "median", "eye", "ones", "copy", "concatenate"}
+            "median", "eye", "ones", "copy", "concatenate", "linspace", "full", "empty", "empty_like", "ones_like", "full_like", "hstack", "vstack",
+            "column_stack", "argwhere", "argmin", "cumsum", "prod", "diff", "flatnonzero", "unique", "sort", "meshgrid", "tile", "repeat", "delete", "insert",
+            "append", "setdiff1d", "intersect1d", "union1d", "in1d", "all", "any", "allclose", "array_equal", "isnan", "isfinite", "floor", "ceil", "round",
+            "exp", "log", "square", "power", "maximum", "minimum", "clip", "einsum", "inner", "cross", "trace", "std", "var", "argpartition", "flip", "roll",
+            "logical_and", "logical_or", "logical_xor", "isclose", "sign", "hypot", "arctan2", "deg2rad", "rad2deg", "tan", "searchsorted", "bincount", "indices"}
+NP_WRITE_FIRST = {"copyto", "put", "place", "putmask", "fill_diagonal", "put_along_axis"}      # mutate their first argument
 NP_ALIAS = {"squeeze", "transpose", "asarray", "ascontiguousarray", "asfortranarray", "atleast_2d", "ravel", "reshape", "asanyarray"}
 METHOD_FRESH = {"copy", "tolist", "any", "all", "sum", "max", "min", "mean", "format", "lower", "keys", "items", "isnull", "issubset", "basename", "dirname",
                 "expanduser", "splitext", "default_rng", "permutation", "norm", "det", "transform", "predict", "catch_warnings", "filterwarnings", "warn",
@@ -222,6 +227,8 @@ class Translator:
             else:
                 if any(sw in k.arg for sw in IN_PLACE_SWITCHES) and not (isinstance(k.value, ast.Constant) and k.value.value is False):
                     raise TranslationError(f"{f.qual}: keyword {k.arg}= at line {e.lineno} may switch an external routine to in-place operation")
+                if k.arg == "out":                   # numpy's out= : the result is written into the given array
+                    f.body.append(("write", v))
                 kw[k.arg] = v
         args = pos + [a for _, a in star] + list(kw.values())
         fn = e.func
@@ -244,10 +251,15 @@ class Translator:
             raise TranslationError(f"{f.qual}: call of {type(fn).__name__} at line {e.lineno}")
         is_np = isinstance(fn, ast.Attribute) and isinstance(fn.value, ast.Name) and fn.value.id in ("np", "numpy")
         if is_np:
+            if "out" in kw:
+                return self.alias_of(f, [kw["out"]])
             if name in NP_FRESH:
                 return self.fresh(f)
             if name in NP_ALIAS:
                 return self.alias_of(f, args)
+            if name in NP_WRITE_FIRST and pos:
+                f.body.append(("write", pos[0]))
+                return self.fresh(f)
             raise TranslationError(f"{f.qual}: numpy.{name} is not classified (line {e.lineno})")
         if isinstance(fn, ast.Name) and name == "setattr":
             targets = [a for a in self.classes.get(f.cls, set()) if not a.endswith("_")]     # keyword names are the documented settings
